@@ -295,6 +295,14 @@ pub fn needs_parens_in_binop(
             let (parent_prec, parent_assoc) = operator_info(parent_op);
             let (child_prec, _child_assoc) = operator_info(child_op);
 
+            // `??` and `^` share a precedence number but `??` binds tighter
+            if parent_prec == child_prec
+                && *parent_op == BinaryOp::Coalesce
+                && *child_op == BinaryOp::Power
+            {
+                return true;
+            }
+
             // Need parentheses if child has lower precedence
             if child_prec < parent_prec {
                 return true;
